@@ -188,3 +188,93 @@ def router_enumerate(w):
                                     return {"cases": cases, "reproduced": True, "detail": "; ".join(probs),
                                             "failures": [{"detail": p, "reproduced": True, "witness": {"replay_kind": "router.enumerate"}} for p in probs]}
     return {"cases": cases, "reproduced": False, "detail": "real router agrees with the statement on every enumerated configuration", "failures": []}
+
+
+@kind("router.history")
+def router_history(w):
+    """bounded stand-in for the history clauses of C04/C05 (a policy is the client's MOST RECENT enableBLOB for that device; nothing else
+    changes it; unregistering forgets it): random histories of register / unregister / enableBLOB / device messages (incl. name-less
+    delProperty) / client messages on the real router against a reference model"""
+    import random
+    from indi.routing import Router, Client, Device
+    from indi import message as M
+    rnd = random.Random(w.get("seed", 0))
+    probs, cases = [], 0
+
+    class Cli(Client):
+        def __init__(self, n):
+            self.n, self.got = n, []
+
+        def message_from_device(self, m):
+            self.got.append(m)
+
+    class Dev(Device):
+        def __init__(self, name):
+            self.name, self.got = name, []
+
+        def accepts(self, device):
+            return device is None or device == self.name
+
+        def message_from_client(self, m):
+            self.got.append(m)
+    for it in range(w.get("n", 300)):
+        r = Router()
+        devs = [Dev("A"), Dev("B")]
+        for d in devs:
+            r.register_device(d)
+        clients = [Cli(i) for i in range(3)]
+        registered, policy = [], {}
+        log = []
+        if rnd.random() < 0.5:
+            for c in clients[:2]:
+                r.register_client(c)
+                registered.append(c)
+                policy[c.n] = {}
+        for step in range(rnd.randint(4, 20)):
+            op = rnd.choice(["reg", "unreg", "enable", "enable", "enable", "dev", "dev", "dev", "dev", "dev", "cli"])
+            c = rnd.choice(clients)
+            if op == "reg" and c not in registered:
+                r.register_client(c)
+                registered.append(c)
+                policy[c.n] = {}
+                log.append("register c%d" % c.n)
+            elif op == "unreg" and c in registered:
+                r.unregister_client(c)
+                registered.remove(c)
+                policy.pop(c.n, None)
+                log.append("unregister c%d" % c.n)
+            elif op == "enable" and c in registered:
+                dn, v = rnd.choice(["A", "B"]), rnd.choice(["Never", "Also", "Only"])
+                r.process_message(M.EnableBLOB(device=dn, value=v), sender=c)
+                policy[c.n][dn] = v
+                log.append("c%d enableBLOB %s=%s" % (c.n, dn, v))
+            elif op == "dev":
+                d = rnd.choice(devs)
+                tag = rnd.choice(["setBLOBVector", "setBLOBVector", "setTextVector", "setTextVector", "delProperty", "delProperty-whole", "delProperty-whole", "message", "defTextVector"])
+                m = M.DelProperty(device=d.name) if tag == "delProperty-whole" else build_message(tag, d.name)
+                for x in clients:
+                    del x.got[:]
+                r.process_message(m, sender=d)
+                cases += 1
+                log.append("%s sends %s" % (d.name, tag))
+                for x in clients:
+                    want = 1 if (x in registered and lets_through(policy[x.n].get(d.name), tag == "setBLOBVector")) else 0
+                    if len(x.got) != want:
+                        probs.append("client c%d (policy %r for %s, %s) received %d copies of %s, expected %d; history: %s"
+                                     % (x.n, policy.get(x.n, {}).get(d.name), d.name, "registered" if x in registered else "not registered", len(x.got), tag, want, "; ".join(log[-7:])))
+            elif op == "cli" and c in registered:
+                tag = rnd.choice(["newTextVector", "getProperties", "delProperty", "setTextVector"])
+                m = build_message(tag, rnd.choice(["A", "B"]))
+                for x in clients:
+                    del x.got[:]
+                r.process_message(m, sender=c)
+                cases += 1
+                log.append("c%d sends %s" % (c.n, tag))
+                for x in clients:
+                    want = 1 if (tag == "getProperties" and x in registered and x is not c and lets_through(policy[x.n].get(m.device), False)) else 0
+                    if len(x.got) != want:
+                        probs.append("client c%d received %d copies of the %s sent by client c%d, expected %d; history: %s" % (x.n, len(x.got), tag, c.n, want, "; ".join(log[-7:])))
+            if len(probs) >= 3:
+                return {"cases": cases, "reproduced": True, "detail": "; ".join(probs[:2]),
+                        "failures": [{"detail": p, "reproduced": True, "witness": {"replay_kind": "router.history"}} for p in probs[:3]]}
+    return {"cases": cases, "reproduced": False, "detail": "real router agrees with the reference model on every history", "failures": []}
